@@ -16,7 +16,13 @@ def _eps(result):
 
 def _summary(transform, target, w):
     """what callers may rely on: the result draws `target` through (approximately) `transform`"""
-    return same(w[1], target) and close(w[0], spec.aff(transform), 1e-9 * 32770)
+    T = spec.aff(transform)
+    return (
+        same(w[1], target)
+        # linear part to 1e-9 (almost-equal scales are merged), translation to 1e-9 x int16 range
+        and close(w[0][:4], T[:4], 1e-9)
+        and close(w[0][4:], T[4:], 1e-9 * 32770)
+    )
 
 
 @contract("nanoemoji.paint.transformed", props=["C16", "C01", "C06"])
